@@ -278,6 +278,30 @@ fn gen_request(rng: &mut Rng, sc: &Scenario, prop: &str) -> (Vec<u8>, &'static s
             }
         }
     }
+    if matches!(prop, "c08" | "c01" | "c02") && rng.chance(1, 8) {
+        // a record whose owner is right at the 255-octet limit: labels (with their length
+        // octets) totalling 252..256 octets, ended by a root label or by a pointer to the QNAME
+        let total = rng.range(252, 256);
+        let mut raw = Vec::new();
+        let mut left = total;
+        while left >= 2 {
+            let len = (left - 1).min(63);
+            raw.push(len as u8);
+            raw.extend((0..len).map(|_| *rng.pick(b"oO0")));
+            left -= 1 + len;
+        }
+        if rng.chance(2, 3) {
+            raw.push(0);
+        } else {
+            raw.extend_from_slice(&[0xc0, 12]);
+        }
+        let r = RecSpec::new(NameEnc::Raw(raw), T_A, C_IN, 60, vec![192, 0, 2, 1]);
+        match rng.below(3) {
+            0 => spec.answers.push(r),
+            1 => spec.authorities.push(r),
+            _ => spec.additionals.insert(0, r),
+        }
+    }
     // harmless extra records
     if rng.chance(1, 6) {
         let r = junk_record(rng, &sc.names);
